@@ -6,7 +6,7 @@ from vf.core import call, exc_desc
 from vf.lazy import ck, libx, common
 
 PROP = "C15"
-TECHNIQUE = ('history checker: deep public-state snapshots before/after every operation of random histories on shared Dataset / ScoringScheme / algorithm objects; result digests vs the same operations on fresh objects; early results re-digested at the end; snapshots include both matrices; topk / evaluate operations; histories on incomplete datasets of 10 000+ cells')
+TECHNIQUE = ('history checker: deep public-state snapshots before/after every operation of random histories on shared Dataset / ScoringScheme / algorithm objects; result digests vs the same operations on fresh objects; early results re-digested at the end; snapshots include both matrices; topk / evaluate operations; histories on incomplete datasets of 10 000+ cells; starters given in other containers and, in the histories, as one-shot iterators')
 RULE = ("history checker: a random history of 3-12 non-mutating API operations (any algorithm configuration -- the algorithm objects are shared too, one per configuration, reused across histories --, kemeny_score, "
         "description, str, both partitions, unified_rankings / dataset, projections, matrices, scheme * k, equivalence "
         "tests, dataset == other, nickname) runs on SHARED Dataset / ScoringScheme objects; (a) a deep snapshot of the "
